@@ -944,9 +944,9 @@ def judge_regex(rep, rc, ms, obs, source="C"):
     data = {"kind": "regex", "call": rc, "expression": e, "data": d, "matches_from_re": ms, "observed": list(obs),
             "required": list(req), "found_by": source}
     if tuple(req) != tuple(obs):
-        rep.add("violation", "regex %s%s: what the selector sees differs from the documented match record (%s)" % (
+        rep.add("violation", "regex %s%s: result differs from the documented meaning / match record (%s)" % (
             rc["fn"], " with named groups" if named else "",
-            "raises %s" % obs[1] if obs[0] == "foreign" else "wrong value"), data)
+            "raises" if obs[0] == "foreign" else "wrong value"), data)
     else:
         rep.add("mismatch", "regex %s: Model/Regex.v and regex.py disagree (the twin agrees with the implementation)" % rc["fn"], data)
 
@@ -1092,7 +1092,7 @@ def oracle(run, deep):
     for parts in itertools.product(["", "a", "b", "ab", "ba"], repeat=3):
         for k in (1, 2, 3):
             d = {"l": list(parts[:k]), "x": " "}
-            law(rep, "join_split: l.join(x).split(x) = l", "$.l.join($.x).split($.x) = $.l", d)
+            law(rep, "join_split: l.join(x).split(x) = l", "$.l.join($.x).split($.x)", d, required=list(parts[:k]))
             run.count("O:laws")
     # 2. the twin on the exhaustive index grid of the quantifier
     for s in words("ab", 4 if big else 3):
